@@ -1,4 +1,6 @@
-\* C07: two requests in flight, every interleaving of their steps, all pool choices (no export)
+\* C07 - two requests in flight (Slots = 2): every interleaving of Take / Decode / Mutate / Parse / AddCache /
+\* Respond / Finish of two requests, every pool choice, PoolMax = 2; RequestsConc (27 requests). No export.
+\* Measured: 1,401,164 distinct states (3,306,089 generated), depth 40, 68 s with 4 workers.
 CONSTANTS
   Requests <- RequestsConc
   ResetFields <- AllSix
